@@ -107,7 +107,7 @@ package raft
 // (engine) a loop that assigns a local Node variable havocs the Node fields of EVERY object at the loop head;
 // the invariant forall(p, !isfresh(p) ==> NodeVal(p) == old(NodeVal(p))) restates that pre-existing Node objects keep their value
 //@ pure NodeVal(p *Node) Node = *p
-//@ pure MbCanChange(l *leader) bool = CfgCommitted(l.storage) && !l.transfer.timer.active
+//@ pure MbCanChange(l *leader) bool = CfgCommitted(l.storage) && l.commitIndex >= l.startIndex && !l.transfer.timer.active
 //@ pure MbReplsWF(l *leader) bool = l.repls != nil && !has(l.repls, l.nid) && forall(k, has(l.repls, k) ==> l.repls[k] != nil && l.repls[k].status.id == k)
 //@ pure MbLeaderWF(l *leader) bool = l.Raft != nil && RaftWF(l.Raft) && l.resolver != nil && l.transfer.timer != nil && MbReplsWF(l)
 //@ pure KeysOK(c Config) bool = forall(k, has(c.Nodes, k) ==> c.Nodes[k].ID == k)
@@ -147,6 +147,10 @@ package raft
 //@   ensures [C02.own-term-entries] forall(i, old(l.lastLogIndex) < i && i <= l.lastLogIndex ==> l.gterm[i] == l.term)
 //@   ensures [C06.flush-before-advance] old(l.flushed >= l.commitIndex) ==> l.flushed >= l.commitIndex
 //@   ensures old(CfgCommitted(l.storage)) && l.configs.Latest.Index == old(l.configs.Latest.Index) ==> l.configs.Latest == old(l.configs.Latest) && l.configs.Committed == old(l.configs.Committed)
+// an ACCEPTED configuration entry (no transfer in progress, the leader is a voter: !Rej) is ADOPTED inside the call:
+// the latest configuration afterwards is a newer one (the one passed, or - on a single-voter leader, where the entry
+// is committed at once - a configuration derived from it by the actions that were started after the commit)
+//@   ensures [C08.accepted-config-adopted] old(!Rej(l)) ==> l.configs.Latest.Index > old(l.configs.Latest.Index)
 
 //@ pure MbUnchanged(l *leader, lat Config, com Config, li uint64, ci uint64) bool = l.configs.Latest == lat && l.configs.Committed == com && l.lastLogIndex == li && l.commitIndex == ci
 
@@ -172,7 +176,7 @@ package raft
 //@   ensures [C08.actions-fresh-kept] l.configs.Latest.Index == old(l.configs.Latest.Index) ==> l.configs.Latest == old(l.configs.Latest)
 //@   ensures [C08.configs-change-only-forward] old(CfgCommitted(l.storage)) && l.configs.Latest.Index == old(l.configs.Latest.Index) ==> l.configs.Committed == old(l.configs.Committed)
 //@   ensures status.id == old(status.id)
-//@   ensures [C02.config-guard] old(!MbCanChange(l)) ==> MbUnchanged(l, old(l.configs.Latest), old(l.configs.Committed), old(l.lastLogIndex), old(l.commitIndex)) && !MbCanChange(l) && l.node == old(l.node) && l.numVoters == old(l.numVoters) && forall(k, has(l.repls, k) == old(has(l.repls, k)) && l.repls[k] == old(l.repls[k])) && l.flushed == old(l.flushed) && forall(i, l.gterm[i] == old(l.gterm[i]) && l.gtyp[i] == old(l.gtyp[i]))
+//@   ensures [C02.config-guard] old(!MbCanChange(l)) ==> MbUnchanged(l, old(l.configs.Latest), old(l.configs.Committed), old(l.lastLogIndex), old(l.commitIndex)) && !MbCanChange(l) && l.node == old(l.node) && l.numVoters == old(l.numVoters) && forall(k, has(l.repls, k) == old(has(l.repls, k)) && l.repls[k] == old(l.repls[k])) && l.flushed == old(l.flushed) && forall(i, l.gterm[i] == old(l.gterm[i]) && l.gtyp[i] == old(l.gtyp[i])) && l.waitStable == old(l.waitStable) && forall(tk, GRep(tk) == old(GRep(tk)))
 //@   ensures [C11.remove-after-ack] old(!config.Nodes[status.id].Voter && config.Nodes[status.id].Action == Remove && status.matchIndex < l.configs.Latest.Index) ==> MbUnchanged(l, old(l.configs.Latest), old(l.configs.Committed), old(l.lastLogIndex), old(l.commitIndex))
 //@   ensures [C08.no-action-no-change] old(config.Nodes[status.id].Action == None) ==> MbUnchanged(l, old(l.configs.Latest), old(l.configs.Committed), old(l.lastLogIndex), old(l.commitIndex))
 //@   ensures [C11.promote-after-round] old(!config.Nodes[status.id].Voter && config.Nodes[status.id].Action == Promote && (status.round == nil ==> status.matchIndex < l.lastLogIndex) && (status.round != nil ==> !RoundDone(status.round) && status.matchIndex < status.round.LastIndex)) ==> MbUnchanged(l, old(l.configs.Latest), old(l.configs.Committed), old(l.lastLogIndex), old(l.commitIndex))
@@ -188,6 +192,9 @@ package raft
 // (*leader).changeConfig calls with a stale numVoters, but then the configuration is not committed
 //@   requires [C06.cache-coherent] MbCanChange(l) ==> LeaderCache(l)
 //@   requires [C08.actions-fresh] SameVoters(l.configs.Latest, cfg0)
+// the configuration passed is (an edit of) the latest one and carries its index: the loop recognises an action that was
+// adopted in between by l.configs.Latest.Index != config.Index and continues with the adopted configuration
+//@   requires [C08.actions-fresh] cfg0.Index == l.configs.Latest.Index
 //@   requires [C08.anchor] Anchor(cfg0)
 //@   requires [C08.keys-are-ids] KeysOK(cfg0)
 //@   requires [C11.self-not-promoted] cfg0.Nodes[l.nid].Action != Promote && cfg0.Nodes[l.nid].Action <= ForceRemove
@@ -200,9 +207,13 @@ package raft
 //@   ensures [C04.leader-append-only] forall(i, i <= old(l.lastLogIndex) ==> l.gterm[i] == old(l.gterm[i]) && l.gtyp[i] == old(l.gtyp[i]))
 //@   ensures [C02.own-term-entries] forall(i, old(l.lastLogIndex) < i && i <= l.lastLogIndex ==> l.gterm[i] == l.term)
 //@   ensures [C06.flush-before-advance] old(l.flushed >= l.commitIndex) ==> l.flushed >= l.commitIndex
-//@   ensures [C02.config-guard] old(!MbCanChange(l)) ==> MbUnchanged(l, old(l.configs.Latest), old(l.configs.Committed), old(l.lastLogIndex), old(l.commitIndex)) && !MbCanChange(l) && l.node == old(l.node) && l.numVoters == old(l.numVoters) && forall(k, has(l.repls, k) == old(has(l.repls, k)) && l.repls[k] == old(l.repls[k])) && l.flushed == old(l.flushed) && forall(i, l.gterm[i] == old(l.gterm[i]) && l.gtyp[i] == old(l.gtyp[i]))
+//@   ensures [C02.config-guard] old(!MbCanChange(l)) ==> MbUnchanged(l, old(l.configs.Latest), old(l.configs.Committed), old(l.lastLogIndex), old(l.commitIndex)) && !MbCanChange(l) && l.node == old(l.node) && l.numVoters == old(l.numVoters) && forall(k, has(l.repls, k) == old(has(l.repls, k)) && l.repls[k] == old(l.repls[k])) && l.flushed == old(l.flushed) && forall(i, l.gterm[i] == old(l.gterm[i]) && l.gtyp[i] == old(l.gtyp[i])) && l.waitStable == old(l.waitStable) && forall(tk, GRep(tk) == old(GRep(tk)))
 //@   ensures [C08.actions-fresh-kept] l.configs.Latest.Index == old(l.configs.Latest.Index) ==> l.configs.Latest == old(l.configs.Latest)
 //@   ensures [C08.configs-change-only-forward] old(CfgCommitted(l.storage)) && l.configs.Latest.Index == old(l.configs.Latest.Index) ==> l.configs.Committed == old(l.configs.Committed)
+// progress (supporting, used by (*leader).setCommitIndex): a pending action on the leader itself is started by this call
+// whenever a configuration change is allowed
+//@   ensures old(MbCanChange(l) && cfg0.Nodes[l.nid].Action != None && l.node.Voter) ==> l.configs.Latest.Index > old(l.configs.Latest.Index)
+//@   loop 1 invariant old(MbCanChange(l) && cfg0.Nodes[l.nid].Action != None && l.node.Voter) ==> l.configs.Latest.Index > old(l.configs.Latest.Index)
 //@   loop 1 invariant LeaderWF0(l) && (old(LeaderCache(l)) ==> LeaderCache(l)) && (MbCanChange(l) ==> LeaderCache(l)) && l.flushed >= l.commitIndex && l.term == old(l.term) && l.nid == old(l.nid)
 //@   loop 1 invariant l.Raft == old(l.Raft) && l.storage == old(l.storage) && l.repls == old(l.repls) && l.startIndex == old(l.startIndex) && l.commitIndex >= old(l.commitIndex) && l.lastLogIndex >= old(l.lastLogIndex) && (l.commitIndex != old(l.commitIndex) ==> l.commitIndex >= l.startIndex)
 //@   loop 1 invariant Anchor(config) && KeysOK(config) && SelfOK(config, l.nid)
@@ -219,8 +230,8 @@ package raft
 //@   loop 1 invariant [C06.flush-before-advance] old(l.flushed >= l.commitIndex) ==> l.flushed >= l.commitIndex
 //@   loop 1 invariant [C08.actions-fresh-kept] l.configs.Latest.Index == old(l.configs.Latest.Index) ==> l.configs.Latest == old(l.configs.Latest)
 //@   loop 1 invariant [C08.configs-change-only-forward] old(CfgCommitted(l.storage)) && l.configs.Latest.Index == old(l.configs.Latest.Index) ==> l.configs.Committed == old(l.configs.Committed)
-//@   loop 1 invariant [C02.config-guard] old(!MbCanChange(l)) ==> MbUnchanged(l, old(l.configs.Latest), old(l.configs.Committed), old(l.lastLogIndex), old(l.commitIndex)) && !MbCanChange(l) && l.node == old(l.node) && l.numVoters == old(l.numVoters) && forall(k, has(l.repls, k) == old(has(l.repls, k)) && l.repls[k] == old(l.repls[k])) && l.flushed == old(l.flushed) && forall(i, l.gterm[i] == old(l.gterm[i]) && l.gtyp[i] == old(l.gtyp[i]))
-//@   loop 1 invariant [C08.actions-fresh] l.configs.Latest.Index == old(l.configs.Latest.Index) ==> SameVoters(l.configs.Latest, config)
+//@   loop 1 invariant [C02.config-guard] old(!MbCanChange(l)) ==> MbUnchanged(l, old(l.configs.Latest), old(l.configs.Committed), old(l.lastLogIndex), old(l.commitIndex)) && !MbCanChange(l) && l.node == old(l.node) && l.numVoters == old(l.numVoters) && forall(k, has(l.repls, k) == old(has(l.repls, k)) && l.repls[k] == old(l.repls[k])) && l.flushed == old(l.flushed) && forall(i, l.gterm[i] == old(l.gterm[i]) && l.gtyp[i] == old(l.gtyp[i])) && l.waitStable == old(l.waitStable) && forall(tk, GRep(tk) == old(GRep(tk)))
+//@   loop 1 invariant [C08.actions-fresh] l.configs.Latest.Index == config.Index ==> SameVoters(l.configs.Latest, config)
 
 //@ func (*leader).onChangeConfig
 //@   maypanic OpError
